@@ -26,6 +26,8 @@ CONFIGS = {
                                      (None, S_[1:4]), (3, S_[0:2])]),
     "mat23": dict(shape=(2, 3), slices=[(None, S_[0, :]), (None, S_[:, 1]), (None, S_[0:2, 1:3]),
                                         (None, S_[:, ::2]), (3, S_[1, :]), (None, (np.array([1, 0]), np.array([0, 2])))]),
+    # nested basic slices with negative steps, some reaching the first entry of their parent
+    "vec4nest": dict(shape=(4,), slices=[(None, S_[:3]), (0, S_[::-1]), (None, S_[::-1]), (2, S_[1:3]), (None, S_[:]), (4, S_[::-2])]),
     # index tuples that mix basic slices, integers and index arrays in either order (numpy returns views of temporaries there)
     "mat23mix": dict(shape=(2, 3), slices=[(None, (slice(None), np.array([2, 0]))), (None, (slice(0, 1), np.array([1, 2]))),
                                            (None, (np.array([1, 0]), slice(1, 3))), (None, (1, np.array([0, 2]))),
@@ -118,9 +120,16 @@ class Replayer:
         self.sig = {"A": self.A, "B": self.B}
         self.sl = []
         _, self.slshapes = slice_positions(self.cfg)
+        # the slices are created while the base holds no state (real realisation) or while it holds one of its final shape
+        # (complex realisation) - a slice object must mean the same entries either way
+        late = isinstance(z, complex) and not self.dyad and not self.scalar and self.cfg["slices"]
+        if late:
+            self.A.state = np.zeros(shape, dtype=dt)
         for par, ix in self.cfg["slices"]:
             base_sig = self.A if par is None else self.sl[par]
             self.sl.append(base_sig[ix])
+        if late:
+            self.A.state = None
 
     def val(self, k, vals):
         """the value array handed to slice k: the values chosen by the specification"""
@@ -500,7 +509,7 @@ def run(chk, replay=None):
                         "integer-array slices have no repeated indices; nested slices are basic slices or a slice-then-index-array tuple",
                         "values are small integers times a fixed real or complex unit (additive homomorphism)"]
     # [S] exhaustive checking of the declarative properties on the operational model
-    ex_depth = {"vec4": 6 if thorough else 4, "mat23": 5 if thorough else 4, "mat23mix": 5 if thorough else 4, "scalar": 8 if thorough else 6, "rank0": 8 if thorough else 6, "vec3dyad": 6 if thorough else 5}
+    ex_depth = {"vec4": 6 if thorough else 4, "vec4nest": 5 if thorough else 4, "mat23": 5 if thorough else 4, "mat23mix": 5 if thorough else 4, "scalar": 8 if thorough else 6, "rank0": 8 if thorough else 6, "vec3dyad": 6 if thorough else 5}
     for name, d in ex_depth.items():
         model_check(chk, name, d)
     # vacuity guard: negative variants must be refuted
